@@ -11,7 +11,9 @@ RULE = ("results of all seven result types (arp, tcp, icmp/udp, socks, elastic, 
         "server maps (elastic) and reflectively filled docker Info/Version structs; all 256 one-byte strings and boundary "
         "two/three-byte strings through both escapers; JSON texts (valid and damaged) through encoding/json as the decoder "
         "tie; logger histories (closed / cancelled after k / with flush ticks) and unique-logger histories with random "
-        "repetition patterns; text that looks like JSON escapes (backslash + uXXXX) in values and map keys; back-pressure "
+        "repetition patterns; whole-lines histories (150-500 results, > 4 KiB, taken by the loggers the packet / generic commands "
+        "build in JSON mode while the result channel stays open: every Write to standard output ends at a line boundary); "
+        "text that looks like JSON escapes (backslash + uXXXX) in values and map keys; back-pressure "
         "histories (one producer, NewResultChan of capacity 4 and 1000, more than 2x capacity results behind a stalled writer); "
         "producer bursts (2-12 ARP / TCP / ICMP reply frames of 2-5 hosts with repeats through the real "
         "processors into the real result channel, fully queued before the real JSON / unique logger prints them); one big "
